@@ -705,9 +705,22 @@ impl<'a, C: SimCfg> Runner<'a, C> {
         if self.model.epoch > 0 {
             self.ensure_tracked(true).await;
             for n in (0..self.sc.program.len()).rev() {
-                if self.sc.program.kind(n) == crate::program::Kind::In
-                    && !self.model.inputs.contains_key(&n)
-                {
+                // (minimised scenarios may leave inputs unset: nodes that can
+                // reach one are not asked)
+                let mut stack = vec![n];
+                let mut seen = std::collections::HashSet::new();
+                let mut unset = false;
+                while let Some(x) = stack.pop() {
+                    if !seen.insert(x) {
+                        continue;
+                    }
+                    if self.sc.program.kind(x) == crate::program::Kind::In && !self.model.inputs.contains_key(&x) {
+                        unset = true;
+                        break;
+                    }
+                    stack.extend(self.sc.program.static_deps(x));
+                }
+                if unset {
                     continue;
                 }
                 self.user_query(n, "final sweep").await?;
@@ -935,10 +948,45 @@ pub fn run_real(
     }
 }
 
+/// Restrict the calling thread to `n` CPUs (`available_parallelism()` of the
+/// engine code running on it follows) and return the previous mask.
+fn set_cpus(n: Option<u32>) -> Option<libc::cpu_set_t> {
+    let n = n?;
+    unsafe {
+        let mut old: libc::cpu_set_t = std::mem::zeroed();
+        if libc::sched_getaffinity(0, std::mem::size_of::<libc::cpu_set_t>(), &mut old) != 0 {
+            return None;
+        }
+        let mut new: libc::cpu_set_t = std::mem::zeroed();
+        let mut left = n;
+        for cpu in 0..libc::CPU_SETSIZE as usize {
+            if left > 0 && libc::CPU_ISSET(cpu, &old) {
+                libc::CPU_SET(cpu, &mut new);
+                left -= 1;
+            }
+        }
+        if libc::sched_setaffinity(0, std::mem::size_of::<libc::cpu_set_t>(), &new) != 0 {
+            return None;
+        }
+        Some(old)
+    }
+}
+
+fn restore_cpus(old: Option<libc::cpu_set_t>) {
+    if let Some(old) = old {
+        unsafe {
+            libc::sched_setaffinity(0, std::mem::size_of::<libc::cpu_set_t>(), &old);
+        }
+    }
+}
+
 pub fn run_scenario(sc: &Scenario, decisions: Option<&[Decision]>) -> Outcome {
-    match sc.cfg.storage {
+    let old = set_cpus(sc.cfg.cpus);
+    let out = match sc.cfg.storage {
         Storage::Mem => run_generic::<MemCfg>(sc, decisions),
         Storage::Db { .. } => run_generic::<DbCfg>(sc, decisions),
         Storage::Real { .. } => panic!("real backends run through run_real"),
-    }
+    };
+    restore_cpus(old);
+    out
 }
